@@ -174,6 +174,46 @@ theorem C17_wire_header_section (E : Env) (s s' : LState) (r : Req) (rsp : Respo
       simp only [headerLine, List.mem_append, List.mem_cons, not_or]
       exact ⟨printable_no_cr this.1, by decide, by decide, printable_no_cr this.2⟩
 
+/-- **header section, with the stdlib-made values modelled.**  The Date value http.server writes
+    (`email.utils.formatdate(…, usegmt=True)`, any field values) is printable US-ASCII, so its hypothesis in
+    `C17_wire_header_section` is discharged; the Server value is pywbem's `version_string()` and is CR-free as soon
+    as the three version texts of the installation (pywbem, http.server, Python) are. -/
+theorem C17_wire_header_section_dated (E : Env) (s s' : LState) (r : Req) (rsp : Response)
+    (h : handle Cfg.fixed E s r = some (.ok (s', rsp))) (wd d mon y hh mm ss : Nat) (pv sv sysv : Str)
+    (hv : '\r' ∉ pv ∧ '\r' ∉ sv ∧ '\r' ∉ sysv) :
+    splitCRLF false [] (wireHead (versionString pv sv sysv) (dateString wd d mon y hh mm ss) rsp) =
+      headLines (versionString pv sv sysv) (dateString wd d mon y hh mm ss) rsp ++ [[], []] := by
+  have hsv : '\r' ∉ versionString pv sv sysv := by
+    have hpp : printable "pywbem-listener/".toList = true := by decide
+    have hp : '\r' ∉ "pywbem-listener/".toList := printable_no_cr hpp
+    have hsp : ('\r' : Char) ≠ ' ' := by decide
+    intro hm
+    unfold versionString at hm
+    rcases List.mem_append.mp hm with hm | hm
+    · rcases List.mem_append.mp hm with hm | hm
+      · rcases List.mem_append.mp hm with hm | hm
+        · rcases List.mem_append.mp hm with hm | hm
+          · exact hp hm
+          · exact hv.1 hm
+        · rcases List.mem_cons.mp hm with hm | hm
+          · exact hsp hm
+          · exact hv.2.1 hm
+      · rcases List.mem_cons.mp hm with hm | hm
+        · exact hsp hm
+        · exact hv.2.2 hm
+    · rcases List.mem_cons.mp hm with hm | hm
+      · exact hsp hm
+      · cases hm
+  have hdt : '\r' ∉ dateString wd d mon y hh mm ss := printable_no_cr (dateString_printable wd d mon y hh mm ss)
+  exact C17_wire_header_section E s s' r rsp h _ _ hsv hdt
+
+/-- the two values on a concrete instant and installation -/
+theorem C17_date_server_examples :
+    dateString 4 25 9 2026 18 49 5 = "Fri, 25 Sep 2026 18:49:05 GMT".toList ∧
+    dateString 0 1 1 999 0 0 0 = "Mon, 01 Jan 0999 00:00:00 GMT".toList ∧
+    versionString "1.8.0".toList "BaseHTTP/0.6".toList "Python/3.12.1".toList =
+      "pywbem-listener/1.8.0 BaseHTTP/0.6 Python/3.12.1 ".toList := ⟨by decide, by decide, by decide⟩
+
 /-- an HTTP-level error (4xx/5xx) has an empty body, no Content-Length, the CIMExport header; 400 and 406
     carry a CIMError header, 405 carries `Allow: POST`; 4xx/5xx from do_POST always carry CIMErrorDetails -/
 theorem C17_error_status_has_cimerror (E : Env) (s s' : LState) (r : Req) (rsp : Response)
@@ -438,6 +478,49 @@ theorem C17_request_line_examples :
     parseRequestLine "POST / x HTTP/1.1\r\n".toList = .reject (.stdlib 400) ∧
     parseRequestLine "POST\t/\u00a0HTTP/1.0\n".toList = .dispatch "POST".toList "/".toList "HTTP/1.0".toList ∧
     parseRequestLine "\r\n".toList = .silent ∧ parseRequestLine "FOO".toList = .reject (.bare 400) := by decide
+
+/-- **Any raw request head.**  The same for the raw text behind the request line (any characters): the header
+    section is parsed by the model of http.client.parse_headers (`parseHeaders`: readline limits ⇒ 431, header lines
+    = longest prefix matching the feed parser's headerRE, continuation lines, `From ` lines and empty names
+    skipped, value = text after the first colon without leading blanks, folded lines kept, trailing CR/LF removed)
+    and whatever it yields, the connection is never dropped and the state changes only with a 200. -/
+theorem C17_any_raw_request (E : Env) (s : LState) (raw rest : Str) (body : List Nat) :
+    let r := serveRaw Cfg.fixed E s raw rest body
+    (∀ e, r.2 ≠ .dropped e) ∧
+    (∀ code, (r.2 = .stdlib code ∨ r.2 = .bare code) → code ∈ [400, 414, 431, 501, 505]) ∧
+    (∀ rsp, r.2 = .status rsp → rsp.status ∈ [200, 400, 405, 406, 500]) ∧
+    (r.1 ≠ s → ∃ rsp, (r.2 = .status rsp ∨ r.2 = .bareBody) ∧ rsp.status = 200) := by
+  intro r
+  have hr : r = serveRaw Cfg.fixed E s raw rest body := rfl
+  clear_value r
+  unfold serveRaw at hr
+  cases hp : parseHeaders rest with
+  | none =>
+    simp only [hp] at hr
+    have := C17_any_request_line E s raw true [] body
+    simp only at this
+    rw [← hr] at this
+    exact ⟨this.1, this.2.1, this.2.2.1, this.2.2.2.1⟩
+  | some hs =>
+    simp only [hp] at hr
+    have := C17_any_request_line E s raw false hs body
+    simp only at this
+    rw [← hr] at this
+    exact ⟨this.1, this.2.1, this.2.2.1, this.2.2.2.1⟩
+
+/-- the header-section rules on the forms the listener's checks depend on: name case kept, blanks after the colon
+    dropped, trailing blanks kept, obs-fold kept inside the value, a bare LF line end, duplicate headers both kept
+    (the checks read the first), a line without colon ends the header section, `From ` lines and empty names skipped -/
+theorem C17_header_section_examples :
+    parseHeaders "Content-Type: text/xml\r\ncontent-length:12 \r\n\r\n".toList =
+      some [("Content-Type".toList, "text/xml".toList), ("content-length".toList, "12 ".toList)] ∧
+    parseHeaders "Accept: foo\r\n bar\r\nX:\t \ty\n\n".toList =
+      some [("Accept".toList, "foo\r\n bar".toList), ("X".toList, "y".toList)] ∧
+    parseHeaders "A: 1\r\nA: 2\r\n\r\n".toList = some [("A".toList, "1".toList), ("A".toList, "2".toList)] ∧
+    parseHeaders "A: 1\r\nno colon\r\nB: 2\r\n\r\n".toList = some [("A".toList, "1".toList)] ∧
+    parseHeaders "From me\r\n: x\r\n cont\r\nB: 2\r\n\r\n".toList = some [("B".toList, "2".toList)] ∧
+    parseHeaders "A: a\u000bb\r\n\r\n".toList = some [("A".toList, "a\u000bb".toList)] :=
+  ⟨by decide, by decide, by decide, by decide, by decide, by decide⟩
 
 /-! ## handler threads: peers do not wait for each other -/
 
